@@ -347,7 +347,7 @@ fn main() {
         exhaustive(&mut cases, args.thorough());
         rep.exhaustive = true;
         rep.exhaustive_note = "all ordered pairs (and triples) of five hand-picked families of near-duplicate statements at capacities 1 and 2; plus PRNG sequences (not exhaustive)".into();
-        let mut rng = Rng::new(args.seed);
+        let mut rng = Rng::new(args.seed.wrapping_mul(0xD1B5_4A32_D192_ED03));
         let n = if args.thorough() { 300_000 } else { 30_000 };
         for _ in 0..n {
             cases.push(gen_case(&mut rng));
